@@ -85,7 +85,9 @@ struct Case {
     reasons: Reasons,
     /// 0 in memory (scalar / set as given), 1 in memory, single keyword wrapped in a 1-element set, 2 wire bytes parsed
     shape: usize,
-    /// 0 printer group only, 1 operation + job group around it, 2 unrelated attributes inside the printer group
+    /// 0 printer group only, 1 operation + job group around it, 2 unrelated attributes inside the printer group,
+    /// 3 an unsupported-attributes group BEFORE the printer group holding harmless decoys named printer-state /
+    ///   printer-state-reasons, 4 a job group before and an unsupported group after holding alarming decoys
     context: usize,
 }
 
@@ -142,7 +144,30 @@ impl Case {
                 attrs: vec![at("attributes-charset", vec![Val::Str(r1::T_CHARSET, b"utf-8".to_vec())]), at("status-message", vec![Val::Str(r1::T_TEXT, b"paused".to_vec())])],
             });
         }
+        if self.context == 3 {
+            // RFC 8011 response group order: operation, unsupported, printer
+            m.groups.push(Group {
+                tag: r1::TAG_OPERATION,
+                attrs: vec![at("attributes-charset", vec![Val::Str(r1::T_CHARSET, b"utf-8".to_vec())])],
+            });
+            m.groups.push(Group {
+                tag: r1::TAG_UNSUPPORTED_GROUP,
+                attrs: vec![at("printer-state", vec![Val::Enum(3)]), at("printer-state-reasons", vec![Val::Str(T_KEYWORD, b"none".to_vec())])],
+            });
+        }
+        if self.context == 4 {
+            m.groups.push(Group {
+                tag: r1::TAG_JOB,
+                attrs: vec![at("printer-state", vec![Val::Enum(5)]), at("printer-state-reasons", vec![Val::Str(T_KEYWORD, b"paused".to_vec())])],
+            });
+        }
         m.groups.push(printer);
+        if self.context == 4 {
+            m.groups.push(Group {
+                tag: r1::TAG_UNSUPPORTED_GROUP,
+                attrs: vec![at("printer-state", vec![Val::Enum(5)]), at("printer-state-reasons", vec![Val::Str(T_KEYWORD, b"media-jam".to_vec())])],
+            });
+        }
         if self.context == 1 {
             m.groups.push(Group {
                 tag: r1::TAG_JOB,
@@ -302,7 +327,7 @@ pub fn run(ctx: &Ctx) -> ! {
     let mut rep = Report::new(
         ctx,
         "exploration",
-        "status x printer-state {absent, enum 3,4,5,6,0,-1, integer 5, keyword} x printer-state-reasons {absent, every ordered tuple of 1..n keywords over 10 blocking + 6 informational words, 5 non-keyword shapes} x shape {in memory, single keyword as 1-element set, wire bytes parsed} x context {printer group only, operation+job groups around, unrelated attributes}; plus all 65 536 status codes through the gate; verdict per case from the readiness spec R5 (defined regions only). distinct = case; non-trivial = case inside a defined region",
+        "status x printer-state {absent, enum 3,4,5,6,0,-1, integer 5, keyword} x printer-state-reasons {absent, every ordered tuple of 1..n keywords over 10 blocking + 6 informational words, 5 non-keyword shapes} x shape {in memory, single keyword as 1-element set, wire bytes parsed} x context {printer group only, operation+job groups around, unrelated attributes, an unsupported-attributes group before the printer group with harmless decoys named printer-state / printer-state-reasons, job / unsupported groups around it with alarming decoys}; plus all 65 536 status codes through the gate; verdict per case from the readiness spec R5 (defined regions only). distinct = case; non-trivial = case inside a defined region",
     );
     rep.assume("for status codes 0x0003-0x00ff (successful class, not defined by RFC 8011) either answer is accepted; cases outside the three defined regions accept any Ok(_)");
     if let Some(p) = &ctx.replay {
@@ -333,7 +358,7 @@ pub fn run(ctx: &Ctx) -> ! {
     for i in 0..N_ODD {
         reasons.push(Reasons::Odd(i));
     }
-    let radices = [statuses.len() as u64, STATES as u64, reasons.len() as u64, 3, 3];
+    let radices = [statuses.len() as u64, STATES as u64, reasons.len() as u64, 3, 5];
     let total = vmc::explore::product(&radices);
     for p in par_range(ctx.threads, total, 2048, Stats::new, |st, idx| {
         let t = vmc::explore::unrank(idx, &radices);
